@@ -2,9 +2,10 @@ import Bptk.Core.C16
 /-! Line-protocol driver for the C16 instance-isolation model:  `lake env lean --run Drive/C16.lean < lines`
 
 `cfg <0|1>`                 instancesShareNothing
-`run <k> <ops>`             ops: comma list of `<id><code>`; codes: b | s | s<int> | r | e | k | x | t   (or `-`)
-reply: one token per op: inv nodata started step:<t> res:<n> ended alive deleted swept none
-`val <k> <ops>`             same, with the model's values: step:<t>:<stock>:<knob> -/
+`run <k> <ad> <ops>`        k initial instances, ad = 1: external state adapter; ops: comma list of `<id><code>` (or `-`);
+                            codes: b | b<int> | s | s<int> | r | e | k | x | t | c (create) | R | R<int> (/run) | q (/equations) | a (/agents)
+reply: one token per op: inv nodata started step:<t> res:<n> ended alive deleted swept created ran names noagents saveerr none
+`val <k> <ad> <ops>`        same, with the model's values: step:<t>:<stock>:<knob>, ran:<knob> -/
 open Bptk.C16
 
 def parseOp (s : String) : Option (Nat × Req) :=
@@ -14,14 +15,20 @@ def parseOp (s : String) : Option (Nat × Req) :=
   match ds.toNat? with
   | none => none
   | some i =>
-    if rest == "b" then some (i, .beginSession)
+    if rest == "b" then some (i, .beginSession none)
     else if rest == "s" then some (i, .runStep none)
+    else if rest == "c" then some (i, .create)
+    else if rest == "R" then some (i, .run none)
+    else if rest == "q" then some (i, .equations)
+    else if rest == "a" then some (i, .agents)
     else if rest == "r" then some (i, .results)
     else if rest == "e" then some (i, .endSession)
     else if rest == "k" then some (i, .keepAlive)
     else if rest == "x" then some (i, .stop)
     else if rest == "t" then some (i, .expire)
     else if rest.startsWith "s" then ((rest.drop 1).toString.toInt?).map fun v => (i, .runStep (some v))
+    else if rest.startsWith "b" then ((rest.drop 1).toString.toInt?).map fun v => (i, .beginSession (some v))
+    else if rest.startsWith "R" then ((rest.drop 1).toString.toInt?).map fun v => (i, .run (some v))
     else none
 
 def respStr (vals : Bool) : Option Resp → String
@@ -35,15 +42,20 @@ def respStr (vals : Bool) : Option Resp → String
   | some .timerReset => "alive"
   | some .deleted => "deleted"
   | some .swept => "swept"
+  | some .created => "created"
+  | some (.ran k) => if vals then s!"ran:{k}" else "ran"
+  | some .names => "names"
+  | some .noAgents => "noagents"
+  | some .saveError => "saveerr"
 
 def stepLine (c : Cfg) (line : String) : Cfg × String :=
   match line.trimAscii.toString.splitOn " " with
   | ["cfg", v] => if v == "1" then (⟨true⟩, "ok") else if v == "0" then (⟨false⟩, "ok") else (c, "bad-op")
-  | [cmd, k, ops] =>
-      if cmd != "run" && cmd != "val" then (c, "bad-op") else
+  | [cmd, k, ad, ops] =>
+      if (cmd != "run" && cmd != "val") || (ad != "0" && ad != "1") then (c, "bad-op") else
       match k.toNat?, (if ops == "-" then some [] else (ops.splitOn ",").mapM parseOp) with
       | some k, some ops =>
-          (c, ",".intercalate ((resps c (Server.init k) ops).map fun r => respStr (cmd == "val") r.2))
+          (c, ",".intercalate ((resps c (Server.initAd k (ad == "1")) ops).map fun r => respStr (cmd == "val") r.2))
       | _, _ => (c, "bad-op")
   | _ => (c, "bad-op")
 
